@@ -22,9 +22,10 @@ def validate_scc(rep, count=150):
         ctx, fr = harness_ctx(vm)
         g = ctx.call(G.DiGraph, [], {'V': range(n), 'E': E})
         out = ctx.call(G.compute_SCCs, [g], {})
-        mine = [list(l.slots[:l.lo]) for gy, l in out.entries if gy is True]
+        ents = graphs.seq_entries(ctx, out)
+        mine = [list(l.slots[:l.lo]) for gy, l in ents if gy is True]
         real = [list(c) for c in G.compute_SCCs(G.DiGraph(V=range(n), E=E))]
-        if mine == real and all(see.is_c(gy) for gy, _ in out.entries) and not fr.exc:
+        if mine == real and all(see.is_c(gy) for gy, _ in ents) and not fr.exc:
             ok += 1
         else:
             rep.inconclusive('translator validation failed on edges %s: evaluator %s native %s' % (E, mine, real))
@@ -100,6 +101,9 @@ def run_c12(rep, tier):
     # node values other than small ints (None, str, tuple, frozenset, float mixes): the algorithm only hashes and compares them
     for u in C12_UNIVERSES:
         tasks.append((len(u), None, True, {}, False, u))
+    # histories on one graph object: compute_SCCs, add_edge through the graph's own API, compute_SCCs again (second answer decided)
+    for (n_, hist) in ((2, (1, 0)), (3, (2, 0)), (3, (1, 1)), (4, (3, 1))):
+        tasks.append((n_, None, True, {}, False, None, hist))
     graphs_covered = 0
     if tier == 'quick':
         # n=5: the 16 forks without self-loops and a seeded sample of 24 others (each fork covers 65,536 five-node graphs), no simplifier audit
@@ -117,7 +121,9 @@ def run_c12(rep, tier):
                 tasks.append((5, None, True, fx, False))
     for t, st, r, secs in pmap(graphs.scc_task, tasks):
         n, perm, fold, fixed = t[:4]
-        key = 'scc n=%d order=%s %s%s%s' % (n, perm or 'identity', 'folded' if fold else 'raw', (' fork=%s' % ''.join('1' if v else '0' for v in fixed.values())) if fixed else '', (' nodes=%r' % (t[5],)) if len(t) > 5 else '')
+        key = 'scc n=%d order=%s %s%s%s' % (n, perm or 'identity', 'folded' if fold else 'raw', (' fork=%s' % ''.join('1' if v else '0' for v in fixed.values())) if fixed else '', (' nodes=%r' % (t[5],)) if len(t) > 5 and t[5] else '')
+        if len(t) > 6 and t[6]:
+            key += ' history: compute_SCCs, add_edge%s, compute_SCCs' % (tuple(t[6]),)
         absorb(rep, t, st, r, secs, key, graphs.scc_replay, 'all digraphs on %d nodes: SCC partition == mutual reachability classes' % n)
         if st == 'ok' and r['verdict'] == 'unsat':
             graphs_covered += 2 ** (n * n - len(fixed))
